@@ -652,7 +652,9 @@ pub fn request(rng: &mut Rng) -> Value {
       "size": small_or_huge(rng, 3), "fuzzy": pk(rng, &[json!(null), json!({"max_edits": 2}), json!({"max_edits": 1, "prefix_length": 0, "min_length": 0, "max_expansions": 0})])}});
   }
   if rng.chance(1, 8) {
-    r["rescore"] = json!({"window_size": small_or_huge(rng, 5), "query": query(rng, &mut w, 1), "score_mode": *rng.pick(&["total", "multiply", "sum", "max", "min"])});
+    // half of the rescore queries reject documents (no score), the rest are arbitrary queries
+    let rq = if rng.chance(1, 2) { rescore_query(rng).0 } else { query(rng, &mut w, 1) };
+    r["rescore"] = json!({"window_size": small_or_huge(rng, 5), "query": rq, "score_mode": *rng.pick(&["total", "multiply", "sum", "max", "min"])});
   }
   if rng.chance(1, 8) {
     r["explain"] = json!(true);
@@ -1072,4 +1074,76 @@ pub fn huge_param_request(rng: &mut Rng, huge: u64) -> (String, Value) {
     _ => ("bool.minimum_should_match", base(json!({"type": "bool", "should": [{"type": "term", "field": "body", "value": "rust"}], "minimum_should_match": huge}))),
   };
   (label.to_string(), req)
+}
+
+// ---------------------------------------------------------------- rescore stream
+
+/// rescore queries; `all_match` = the query's matcher accepts every document, so that a
+/// document the rescore phase drops is exactly one the query gives no score to
+pub fn rescore_query(rng: &mut Rng) -> (Value, bool) {
+  match rng.below(9) {
+    // weight applies to one tag only; everything else stays below min_score and is rejected
+    0 | 1 => (
+      json!({"type": "function_score", "query": {"type": "match_all"},
+             "functions": [{"type": "weight", "weight": 2.0, "filter": {"KeywordEq": {"field": "tag", "value": *rng.pick(&TAGS)}}}],
+             "score_mode": "sum", "boost_mode": "multiply", "min_score": 2.0}),
+      true,
+    ),
+    // division by zero for documents with n = k (missing n reads 0)
+    2 | 3 => (json!({"type": "script_score", "query": {"type": "match_all"}, "script": format!("1 / (n - {})", rng.below(8))}), true),
+    // rejects every document
+    4 => (json!({"type": "script_score", "query": {"type": "match_all"}, "script": *rng.pick(&["1 / (x - x)", "1/0", "n * 1e308 * 1e308"])}), true),
+    // non-finite / below-threshold scores through functions
+    5 => (
+      json!({"type": "function_score", "query": {"type": "match_all"},
+             "functions": [{"type": "field_value_factor", "field": *rng.pick(&["n", "x"]), "modifier": *rng.pick(&["log", "sqrt", "reciprocal", "none"]), "missing": weird_f64(rng)}],
+             "boost_mode": *rng.pick(&["replace", "multiply", "sum"]), "min_score": *rng.pick(&[0.0, 1.0, 3.0])}),
+      true,
+    ),
+    6 => (json!({"type": "function_score", "query": {"type": "match_all"}, "functions": [], "min_score": *rng.pick(&[0.5, 1.5])}), true),
+    // ordinary rescoring queries (matcher selects documents: only the finder applies)
+    7 => (json!({"type": "term", "field": "body", "value": *rng.pick(&["rust", "search", "engine"])}), false),
+    _ => (
+      json!({"type": "script_score", "query": {"type": "term", "field": "body", "value": *rng.pick(&["rust", "search"])}, "script": *rng.pick(&["_score / (n - 3)", "_score * 2", "1 / (n - n)"])}),
+      false,
+    ),
+  }
+}
+
+/// first-pass queries whose ranking mixes the segments
+pub fn first_pass_query(rng: &mut Rng) -> Value {
+  match rng.below(7) {
+    0 | 1 => json!({"type": "rank_feature", "field": *rng.pick(&["n", "x"]), "modifier": *rng.pick(&["sqrt", "none", "log1p"]), "missing": 0.0}),
+    2 => json!({"type": "function_score", "query": {"type": "match_all"}, "functions": [{"type": "field_value_factor", "field": "n", "missing": 1.0}], "boost_mode": "replace"}),
+    3 => json!({"type": "match_all"}),
+    4 => json!({"type": "term", "field": "body", "value": *rng.pick(&["rust", "search", "engine", "fast"])}),
+    5 => json!("rust search engine fast lite index"),
+    _ => json!({"type": "bool", "should": [{"type": "term", "field": "body", "value": "rust"}, {"type": "rank_feature", "field": "n", "missing": 0.0}]}),
+  }
+}
+
+/// 2–3 commits of 2–6 documents each (several segments whose documents interleave in rank)
+pub fn commits_multi(rng: &mut Rng, schema: &Value) -> Value {
+  let ncommits = 2 + rng.below(2);
+  let mut out = Vec::new();
+  let mut id = 0;
+  for _ in 0..ncommits {
+    let n = 2 + rng.below(5);
+    let docs: Vec<Value> = (0..n)
+      .map(|_| {
+        id += 1;
+        let mut d = doc(rng, schema, id);
+        // most documents carry n and a tag: the rejection rules above look at them
+        if rng.chance(4, 5) {
+          d["n"] = json!(rng.range(0, 9));
+        }
+        if rng.chance(4, 5) {
+          d["tag"] = json!(*rng.pick(&TAGS));
+        }
+        d
+      })
+      .collect();
+    out.push(json!({"add": docs, "delete": []}));
+  }
+  Value::Array(out)
 }
